@@ -176,6 +176,10 @@ NATIVE = {
                   lambda p, par, n, a, k, s: p.AutoReset(par, n, a['reset'])),
     'StreamCapture': (('x',), (), True, False,
                       lambda p, par, n, a, k, s: p.logic.simulation.StreamCapture(par, n, a['x'])),
+    'BidirBuf': (('pout', 'poe'), ('pin',), False, True,
+                 lambda p, par, n, a, k, s: p.BidirBuf(par, n, a['pin'], a['pout'], a['poe'], a['bidir'])),
+    'Waveform': (('w0', 'w1', 'w2', 'w3'), (), True, False,
+                 lambda p, par, n, a, k, s: p.Waveform(par, n, [a[x] for x in ('w0', 'w1', 'w2', 'w3') if a.get(x) is not None])),
     'EdgeDetector': (('a',), ('r',), True, True,
                      lambda p, par, n, a, k, s: p.EdgeDetector(par, n, a['a'], a['r'], k['direction'])),
     'ClockSyncFSM': (('start', 'stop'), ('sync', 'active'), True, False,
@@ -265,7 +269,10 @@ def build(plan, block_order=None, wire_order=None, subst=None, extra=None):
         if wid in b.W:
             return b.W[wid]
         s = wspec[wid]
-        w = scope_obj(s['scope']).wire(s.get('name', wid), s['w'])
+        if s.get('bidir'):
+            w = scope_obj(s['scope']).bidir_wire(s.get('name', wid), s['w'])
+        else:
+            w = scope_obj(s['scope']).wire(s.get('name', wid), s['w'])
         b.W[wid] = w
         return w
 
@@ -930,12 +937,16 @@ def wire_values(root):
     return out
 
 
+_BASE_ATTRS = {'name', 'propagate', 'clock', 'parent', 'inPorts', 'outPorts', 'inOutPorts', 'sources', 'sinks', 'children',
+               'clockDriver', '_wires', 'parameters'}
+
+
 def leaf_state(root):
     out = {}
     for l in my_leaves(root):
         st = {}
         for k, v in vars(l).items():
-            if k in ('name', 'propagate', 'clock'):
+            if k in _BASE_ATTRS:
                 continue
             if isinstance(v, (int, str, bool, float)) or v is None:
                 st[k] = v
